@@ -97,6 +97,22 @@ def check_solution(pr, method, handles=(), rep=None, want=None):
                       values=sol.values)
     elif rep:
         rep.skipped["objective-not-finite-at-returned-point"] += 1
+    # warm object: the same problem solved again (caches filled by the first solve)
+    try:
+        sol2 = P.solve(**({} if method == "auto" else {"method": method}))
+        if rep:
+            rep.transitions += 1
+        if sol2.values and sol2.objective_value is not None:
+            ref2, ok2 = PR.eval_scalar(pr[2], sol2.values)
+            if rep:
+                rep.evaluations += 1
+            if sorted(sol2.values) != sorted(names):
+                fails.add("values-keys:repeat", got=sorted(sol2.values), expected=names, method=method)
+            elif ok2 and np.isfinite(sol2.objective_value) and abs(sol2.objective_value - ref2) > 1e-9 * (1 + abs(ref2)):
+                fails.add("objective-value:repeat", got=sol2.objective_value, expected=ref2, status=sol2.status.value,
+                          method=method, values=sol2.values)
+    except Exception as ex:
+        fails.add("exception:repeat-solve:" + type(ex).__name__, method=method, msg=str(ex)[:200])
     for h in handles:
         obj = b.build(h)
         exp_names = element_names(h)
